@@ -15,6 +15,12 @@ from ..core import RuleResult
 from ..core import norm
 from ..model import ancestors
 from ..model import own_nodes
+from ..flow import BaseState as _BaseState
+from ..flow import Domain as _Domain
+from ..flow import NORMAL as _NORMAL
+from ..flow import RAISE as _RAISE
+from ..flow import Interp as _Interp
+from ..flow import Outcome as _Outcome
 
 # functions of the batch path and the names the sequence is known by
 BATCH_PATH = {
@@ -215,7 +221,7 @@ def rule_effects(model):
         for n in own_nodes(fi.node):
             if isinstance(n, ast.Call) and any(is_seq(a) for a in n.args):
                 if isinstance(n.func, ast.Name) and \
-                        n.func.id in FORCING_CALLS | {'isinstance'}:
+                        n.func.id in FORCING_CALLS | INSPECTING_CALLS:
                     continue
                 tg = set()
                 for t in model.resolve_callee(n.func, fi):
@@ -294,6 +300,104 @@ def rule_effects(model):
     return r
 
 
+class _StoreState(_BaseState):
+    def __init__(self, pending=None):
+        self.pending = pending
+
+    def key(self):
+        return (self.pending,)
+
+    def copy(self):
+        n = _StoreState(self.pending)
+        n.trace = self.trace
+        return n
+
+
+class _StoreDomain(_Domain):
+    """Every element pulled from the wrapped iterator is appended to the
+    cache before the next pull, the next loop round or the return:
+    `pending` names the local that holds a pulled, not yet stored
+    element."""
+
+    def __init__(self, it_attr, data_attr):
+        self.it = f'self.{it_attr}'
+        self.data = f'self.{data_attr}'
+        self.bad = {}
+
+    def _pulls(self, node):
+        return [c for c in ast.walk(node) if isinstance(c, ast.Call)
+                and norm(c.func) == 'next' and c.args
+                and norm(c.args[0]) == self.it]
+
+    def _flag(self, node, why):
+        self.bad.setdefault((id(node), why), (node, why))
+
+    def simple(self, stmt, st):
+        outs = []
+        pulls = self._pulls(stmt)
+        ns = st
+        for c in ast.walk(stmt):
+            if isinstance(c, ast.Attribute) and norm(c) == self.it and \
+                    not any(c is p.args[0] for p in pulls):
+                self._flag(c, 'the iterator is handed on or replaced')
+        if pulls:
+            if st.pending is not None:
+                self._flag(pulls[0], 'a second element is pulled while '
+                           f'`{st.pending}` is not stored yet')
+            # the pull itself may end the iteration
+            outs.append(_Outcome(_RAISE, st, 'StopIteration', stmt))
+            if len(pulls) > 1:
+                self._flag(pulls[1], 'several at once')
+            c = pulls[0]
+            par = c._dt_parent
+            if isinstance(par, ast.Call) and isinstance(
+                    par.func, ast.Attribute) and par.func.attr == 'append' \
+                    and norm(par.func.value) == self.data:
+                pass
+            elif isinstance(stmt, ast.Assign) and stmt.value is c and \
+                    len(stmt.targets) == 1 and isinstance(
+                        stmt.targets[0], ast.Name):
+                ns = st.copy()
+                ns.pending = stmt.targets[0].id
+            else:
+                self._flag(c, 'the element is dropped')
+        else:
+            for c in ast.walk(stmt):
+                if isinstance(c, ast.Call) and isinstance(
+                        c.func, ast.Attribute) and c.func.attr == 'append' \
+                        and norm(c.func.value) == self.data and c.args and \
+                        st.pending is not None and \
+                        norm(c.args[0]) == st.pending:
+                    ns = st.copy()
+                    ns.pending = None
+        outs.append(_Outcome(_NORMAL, ns))
+        return outs
+
+    def branch(self, test, st):
+        if self._pulls(test):
+            self._flag(test, 'pulled in a condition')
+        return [(True, st), (False, st)]
+
+    def loop_head(self, node, st):
+        if st.pending is not None:
+            self._flag(node, f'`{st.pending}` is not stored when the loop '
+                       'goes round')
+            st = st.copy()
+            st.pending = None
+        return st
+
+    def on_return(self, node, st):
+        if st.pending is not None:
+            self._flag(node, f'`{st.pending}` is not stored on return')
+        if node.value is not None and self._pulls(node.value):
+            self._flag(node, 'the element is returned, not stored')
+        return [], st
+
+
+# builtins that look at an object without iterating / indexing it
+INSPECTING_CALLS = {'isinstance', 'hasattr', 'callable', 'type', 'id'}
+
+
 def rule_puller(model):
     r = RuleResult('C12.R2', 'the wrapped iterator is advanced only by '
                    'SequenceFromIter.__getitem__ under the index test; '
@@ -323,21 +427,20 @@ def rule_puller(model):
                     and fi.cls is cls:
                 r.instance(fi.where, n, 'owner class')
                 # outside __init__ the iterator is only advanced, and what
-                # it yields is stored: <data>.append(next(self.it))
-                if fi is init:
-                    continue
-                par = n._dt_parent
-                gp = getattr(par, '_dt_parent', None)
-                stored = isinstance(par, ast.Call) and \
-                    norm(par.func) == 'next' and isinstance(gp, ast.Call) \
-                    and isinstance(gp.func, ast.Attribute) and \
-                    gp.func.attr == 'append' and \
-                    norm(gp.func.value) == f'self.{data_attr}'
-                if not stored:
-                    r.finding(fi.where, par, 'the wrapped iterator is used '
-                              'other than by storing its next element: '
-                              'elements are pulled without being kept (or '
-                              'several at once)', node=n, ctx=fi)
+                # it yields is stored (decided per function below)
+    for fi in cls.methods.values():
+        if fi is init:
+            continue
+        if not any(isinstance(n, ast.Attribute) and n.attr == it_attr
+                   for n in own_nodes(fi.node)):
+            continue
+        dom = _StoreDomain(it_attr, data_attr)
+        _Interp(dom, 20000).run(fi.node, _StoreState())
+        for node, why in dom.bad.values():
+            r.finding(fi.where, node, 'the wrapped iterator is used '
+                      'other than by storing its next element: '
+                      f'elements are pulled without being kept ({why})',
+                      node=node, ctx=fi)
     # nobody outside the class reaches the wrapped iterator
     for fi in model.all_funcs():
         if fi.cls is cls:
@@ -423,10 +526,6 @@ TRUSTED = ['python ast']
 
 # ------------------------------------------------------------------ R3
 # the numeric look-ahead bound of the window computation itself
-from ..flow import NORMAL as _NORMAL      # noqa: E402
-from ..flow import RAISE as _RAISE        # noqa: E402
-from ..flow import Interp as _Interp      # noqa: E402
-from ..flow import Outcome as _Outcome    # noqa: E402
 from ..zone import Zone as _Zone          # noqa: E402
 from ..zone import lin as _lin            # noqa: E402
 from ..zone import sub as _sub            # noqa: E402
